@@ -328,6 +328,175 @@ def run_history(kind, ops, el=None):
     return obs
 
 
+# ------------------------------------------------------------------ float oracle (outside TLC, DESIGN.md section 6)
+def ltr(xs, start=0):
+    """left-to-right float addition: what "Python's sum" means operationally"""
+    import functools
+    import operator
+    return functools.reduce(operator.add, xs, start)
+
+
+def sums_agree(xs, start=0):
+    """Both readings of "Python's sum" give the same number: the built-in sum() (compensated for floats since
+    Python 3.12) and left-to-right addition.  The oracle is applied to such sequences only."""
+    return sum(xs, start) == ltr(xs, start)
+
+
+def fmap(d, j):
+    """an int of the model -> a float that is inexact in binary (the additions round)"""
+    return d * 0.1 + (j % 5) * 0.7
+
+
+def float_kind(kind):
+    """the kinds whose documented aggregate is a float formula over Python's sum"""
+    t = kind["t"]
+    if kind.get("opt"):
+        return False
+    if t == "Sum":
+        return True
+    if t == "Mean":
+        return kind["inner"] in ("py", "Sum")
+    if t == "VMC":
+        return True
+    if t == "Vec":
+        return kind["form"] == "dim" and kind["inners"][0]["t"] == "Sum" and not kind["inners"][0].get("opt") \
+            and kind["cons"] in ("tuple", "named")
+    return False
+
+
+def float_check(kind, xs, start, got, el=None):
+    """None (fine or not decidable) or a description of the mismatch of one computed datum against the oracle.
+    xs: the floats filled since the last reset."""
+    from fractions import Fraction as F
+    t, n = kind["t"], len(xs)
+    if t == "Sum":
+        if not sums_agree(xs, start):
+            return None
+        want = ltr(xs, start)
+        if got != want:
+            return {"what": "float-sum", "expected": repr(want), "observed": repr(got)}
+        if el is not None and getattr(el, "total", want) != want:
+            return {"what": "float-total", "expected": repr(want), "observed": repr(el.total)}
+        return None
+    if n == 0:
+        return None
+    if t == "Mean":
+        if not sums_agree(xs, 0):
+            return None
+        want = float(ltr(xs, 0)) / float(n)
+        return None if got == want else {"what": "float-mean", "expected": repr(want), "observed": repr(got)}
+    if t == "VMC":
+        if not (isinstance(got, tuple) and len(got) == 3):
+            return {"what": "float-shape", "observed": repr(got)}
+        var, mean, count = got
+        if sums_agree(xs, 0):
+            want = ltr(xs, 0) / n
+            if mean != want or count != n:
+                return {"what": "float-mean", "expected": repr(want), "observed": repr(mean)}
+        s, q = sum(F(x) for x in xs), sum(F(x) * F(x) for x in xs)
+        if kind["corr"] and n < 2:
+            return None
+        exact = (n * q - s * s) / (F(n * n * (n - 1)) if kind["corr"] else F(n * n * n)) * (n if kind["corr"] else n)
+        if not close(var, float(exact), float(q) / n):
+            return {"what": "float-variance", "expected": repr(float(exact)), "observed": repr(var)}
+        return None
+    return None
+
+
+def float_variant(kind, ops):
+    """The history with every filled number x replaced by the inexact float fmap(x, index), on a new real element:
+    list of (index of the compute, mismatch)."""
+    if not float_kind(kind):
+        return []
+    el = build(kind)
+    t = kind["t"]
+    start = kind["start"] if t == "Sum" else (kind["inners"][0]["start"] if t == "Vec" else 0)
+    fills, bad = [], []
+    for idx, o in enumerate(ops):
+        if o["op"] == "f":
+            v = o["x"]
+            if t == "Vec":
+                d = tuple((fmap(c["d"], idx + k), py_ctx(c["c"])) if c["h"] else fmap(c["d"], idx + k)
+                          for k, c in enumerate(v["d"]))
+                plain = tuple(fmap(c["d"], idx + k) for k, c in enumerate(v["d"]))
+            else:
+                d = plain = fmap(v["d"], idx)
+            el.fill((d, py_ctx(v["c"])) if v["h"] else d)
+            fills.append(plain)
+        elif o["op"] == "c":
+            try:
+                items = list(el.compute())
+            except Exception:      # noqa  (an empty Mean: decided by the exact model)
+                continue
+            for item in items[:1]:
+                data = item[0] if _has_context(item) else item
+                if t == "Vec":
+                    for k in range(len(kind["inners"])):
+                        g = data[k]
+                        g = g[0] if _has_context(g) else g
+                        m = float_check(kind["inners"][0], [f[k] for f in fills], start, g)
+                        if m:
+                            bad.append((idx, m))
+                            break
+                else:
+                    m = float_check(kind, fills, start, data, el)
+                    if m:
+                        bad.append((idx, m))
+        elif o["op"] == "rx":
+            try:
+                el.reset()
+            except Exception:      # noqa
+                pass
+        else:
+            el.reset()
+            fills, start = [], 0
+    return bad
+
+
+def rand_float_history(rnd):
+    """a kind and a list of floats with inexact additions (decimal fractions of mixed magnitude)"""
+    t = rnd.choice(["Sum", "Sum", "Sum5", "Mean", "MeanSum", "VMC", "Vec"])
+    n = rnd.randint(2, 12)
+    scale = rnd.choice([1, 1, 10, 1000, 1e6])
+    xs = [round(rnd.uniform(-1, 1) * scale, rnd.randint(1, 3)) if rnd.random() < 0.8 else rnd.uniform(-1, 1) * scale
+          for _ in range(n)]
+    if rnd.random() < 0.3:
+        xs = [abs(x) for x in xs]
+    kind = {"Sum": {"t": "Sum", "start": 0}, "Sum5": {"t": "Sum", "start": rnd.choice([5, -3])},
+            "Mean": {"t": "Mean", "inner": "py", "poe": False}, "MeanSum": {"t": "Mean", "inner": "Sum", "poe": False},
+            "VMC": {"t": "VMC", "corr": rnd.random() < 0.5, "poe": False, "given": rnd.random() < 0.3},
+            "Vec": {"t": "Vec", "inners": [{"t": "Sum", "start": 0}] * 2, "form": "dim", "cons": "tuple"}}[t]
+    return kind, xs
+
+
+def run_float_history(kind, xs, with_ctx):
+    """fill the floats (computing now and then), -> list of mismatches"""
+    el = build(kind)
+    t = kind["t"]
+    start = kind["start"] if t == "Sum" else 0
+    bad, fills = [], []
+    for j, x in enumerate(xs):
+        d = (x, -x) if t == "Vec" else x
+        el.fill((d, {"a": j}) if with_ctx else d)
+        fills.append(d)
+        if j % 3 == 2 or j == len(xs) - 1:
+            item = list(el.compute())[0]
+            data = item[0] if _has_context(item) else item
+            if t == "Vec":
+                for k in range(2):
+                    g = data[k]
+                    g = g[0] if _has_context(g) else g
+                    m = float_check(kind["inners"][0], [f[k] for f in fills], 0, g)
+                    if m:
+                        bad.append(dict(m, fills=[repr(f[k]) for f in fills]))
+                        break
+            else:
+                m = float_check(kind, fills, start, data, el)
+                if m:
+                    bad.append(dict(m, fills=[repr(f) for f in fills]))
+    return bad
+
+
 # ------------------------------------------------------------------ comparison with the spec
 def close(a, b, scale=1.0):
     return abs(a - b) <= 1e-9 * max(1.0, abs(scale), abs(b))
